@@ -91,3 +91,78 @@ Example C13_hypotheses_satisfiable :
   fst (vol (fst st) (snd st)) = Ok [2%N; 3%N] /\
   c_cache (snd st) = [(2%N, 10#1)].
 Proof. vm_compute. auto. Qed.
+
+(* ---------------------------------------------------------------- round 2: dependency expressions, dependence *)
+Require Import QV.C13.ProofsVolX.
+
+(* DEPENDENCY EXPRESSIONS: in every reachable state, for every change nc of volatile constants only, the expression
+   reported for x by get_volatile_parameters(), evaluated in ANY environment that gives the constants of the scope
+   rebuilt from nc their values, is the value of x in the rebuilt scope (nc = [] : its current value) *)
+Theorem C13_volatile_expr : forall s0 ops s c ve nc d' env x e q,
+  exec (s0, cempty) ops = (s, c) -> wf_scope s = true -> fst (volx s c) = Ok ve ->
+  (exists d, denote_scope s = Ok d) -> changes_non_volatile s nc = false ->
+  denote_scope (rebuild s nc) = Ok d' -> env_for env (rebuild s nc) ->
+  lookup ve x = Some e -> lookup d' x = Some q -> eval env e = Some q.
+Proof.
+  intros s0 ops s c ve nc d' env x e q He Hwf Hv Hd Hnv Hd' Henv Hx Hq.
+  pose proof (exec_cache_ok ops s0 cempty (cache_ok_empty s0)) as Hc. rewrite He in Hc. cbn [fst snd] in Hc.
+  rewrite (proj1 (volx_refines s c Hc)) in Hv.
+  exact (volx_change s nc d' ve env x e q Hwf Hnv Hd Hd' Hv Henv Hx Hq).
+Qed.
+Print Assumptions C13_volatile_expr.
+
+Theorem C13_volatile_expr_current : forall s d ve env x e q,
+  wf_scope s = true -> denote_scope s = Ok d -> pvolx s = Ok ve -> env_for env s ->
+  lookup ve x = Some e -> lookup d x = Some q -> eval env e = Some q.
+Proof. exact volx_current. Qed.
+Print Assumptions C13_volatile_expr_current.
+
+(* the keys of the expression map are the reported names (so C13_volatile speaks about the same object) *)
+Theorem C13_volatile_expr_keys : forall s c, fst (vol s c) = rmap (map fst) (fst (volx s c)).
+Proof. intros s c. unfold vol. destruct (volx s c). reflexivity. Qed.
+Print Assumptions C13_volatile_expr_keys.
+
+(* DEPENDENCE is syntactic in the code (the variables of the expression object) and that is sound for the semantic
+   reading: a parameter that is NOT reported keeps its value under every change of volatile constants *)
+Theorem C13_unreported_is_constant : forall s nc d d' x,
+  wf_scope s = true -> changes_non_volatile s nc = false ->
+  denote_scope s = Ok d -> denote_scope (rebuild s nc) = Ok d' ->
+  depends_on_volatile s x = false -> lookup d' x = lookup d x.
+Proof. exact nonvolatile_invariant. Qed.
+Print Assumptions C13_unreported_is_constant.
+
+(* ... the converse fails: v - v (as an expression object that still mentions v; sympy itself cancels this one, but not
+   e.g. (v+1)*(v-1) - v*v) is reported volatile although its value is 0 for every value of v *)
+Theorem C13_semantic_dependence_refuted :
+  exists s x, wf_scope s = true /\ depends_on_volatile s x = true /\
+    forall nc d', denote_scope (rebuild s nc) = Ok d' -> exists q, lookup d' x = Some q /\ (q == 0)%Q.
+Proof.
+  exists (SMapped (SDict [(0%N, 3#1)] [0%N]) [(1%N, ESub (EVar 0%N) (EVar 0%N))]), 1%N.
+  split; [reflexivity|]. split; [reflexivity|].
+  intros nc d'. cbn. destruct (lookup nc 0%N) as [v|]; intros H; injection H as <-; cbn;
+    eexists; (split; [reflexivity|ring]).
+Qed.
+Print Assumptions C13_semantic_dependence_refuted.
+
+(* get_volatile_parameters() cannot raise on a scope that denotes a mapping *)
+Theorem C13_volatile_total : forall s0 ops s c d,
+  exec (s0, cempty) ops = (s, c) -> wf_scope s = true -> denote_scope s = Ok d ->
+  exists ve, fst (volx s c) = Ok ve.
+Proof.
+  intros s0 ops s c d He Hwf Hd.
+  pose proof (exec_cache_ok ops s0 cempty (cache_ok_empty s0)) as Hc. rewrite He in Hc. cbn [fst snd] in Hc.
+  rewrite (proj1 (volx_refines s c Hc)). exact (pvolx_total s Hwf d Hd).
+Qed.
+Print Assumptions C13_volatile_total.
+
+(* non-vacuity: the witness of the repaired defect (a = v + b with b overwritten by the same mapping), volatile
+   constant changed 3 -> 10: the reported expression evaluates to the current value 5 and to the changed value 12 *)
+Example C13_volatile_expr_satisfiable :
+  let s := SMapped (SDict [(0%N, 1#1); (1%N, 2#1); (2%N, 3#1)] [2%N])
+                   [(0%N, EAdd (EVar 2%N) (EVar 1%N)); (1%N, EConst (7#1))] in
+  wf_scope s = true /\ changes_non_volatile s [(2%N, 10#1)] = false /\
+  (exists ve e, pvolx s = Ok ve /\ lookup ve 0%N = Some e /\
+     eval (lookup [(0%N, 1#1); (1%N, 2#1); (2%N, 3#1)]) e = Some (5#1) /\
+     eval (lookup [(0%N, 1#1); (1%N, 2#1); (2%N, 10#1)]) e = Some (12#1)) /\
+  (exists d', denote_scope (rebuild s [(2%N, 10#1)]) = Ok d' /\ lookup d' 0%N = Some (12#1)).
+Proof. vm_compute. repeat split; eauto 6. Qed.
